@@ -93,3 +93,17 @@ Theorem C12_atoi_reads_what_is_printed n : - 2^63 <= n < 2^63 -> atoi (print_int
 Proof. exact (atoi_print_int n). Qed.
 Print Assumptions C12_atoi_reads_what_is_printed.
 
+
+(** the raw dump endpoint *)
+Theorem C12_remote_view_raw_is_local lookup file aid :
+  file <> [] -> Forall byte file -> - 2^63 <= aid < 2^63 ->
+  match read_raw (lookup file) aid with
+  | RwNotExist => client_read_raw (handle_view_raw lookup (view_raw_query file aid)) = WNotExist
+  | RwErr => client_read_raw (handle_view_raw lookup (view_raw_query file aid)) = WErr
+  | RwOk h pl =>
+    forall hd, h_header h = Some hd -> wf_header hd ->
+               Forall (fun ps => Forall wf_point ps /\ zlen ps <= MaxInt32) pl -> length pl = length (h_arcs hd) ->
+    client_read_raw (handle_view_raw lookup (view_raw_query file aid)) = WOk hd pl
+  end.
+Proof. exact (remote_view_raw_is_local lookup file aid). Qed.
+Print Assumptions C12_remote_view_raw_is_local.
